@@ -386,3 +386,13 @@ func isNil(x interface{}) bool {
 	}
 	return false
 }
+
+// CollectKeys returns the response keys CollectFields yields for objType over one selection
+// set, in order.
+func CollectKeys(s *model.Schema, d *model.Doc, vars map[string]interface{}, objType string, sel []*model.Sel) []string {
+	var out []string
+	for _, g := range Collect(s, d, vars, objType, [][]*model.Sel{sel}) {
+		out = append(out, g.key)
+	}
+	return out
+}
